@@ -722,7 +722,8 @@ fn oracle_wcalls(ic: u8, fac: u8, calls: &[Call], r: &RunResult, case: &str, obs
         }
     }
     let last_depth = r.st.split('/').nth(1).map(|s| if s == "-" { 0 } else { s.len() });
-    if last_depth != Some(d) {
+    // (when the private state is unobservable the per-call public depth() rows above carry this check)
+    if r.st != "st:?" && last_depth != Some(d) {
         obs.violation("depth-not-unmatched-starts", case, &format!("impl {:?} expected {}", last_depth, d));
     }
     // (b) a well-formed call list parses back to exactly the described structure
